@@ -94,7 +94,7 @@ func main() {
 	run.Assumptions = []string{
 		"'eventually delivered' is decided as bounded progress: 60 s without a byte on a connection whose both ends are open is a stall; a close must reach the other end within 30 s",
 		"kcp is excluded from the completeness clause of orderly close (the property says reliable transports); prefix, identity and close propagation are still judged over kcp",
-		"the rate bound is anchored at an idle instant before the first connection of the proxy; receiver timestamps are taken after the read returns, so machine load can only make the bound easier to satisfy; a 10 % relative tolerance absorbs the token over-issue of golang.org/x/time/rate under concurrent WaitN calls (measured up to 0.6 % on the bare library; 0.015 % seen through frp)",
+		"the rate bound is anchored at an idle instant before the first connection of the proxy; receiver timestamps are taken after the read returns, so machine load can only make the bound easier to satisfy; golang.org/x/time/rate itself over-issues tokens when WaitN has concurrent callers (excess = rate x scheduling delay; up to 8 % seen at machine load 70), so proxies with concurrent traffic are judged with 25 % tolerance and proxies driven by one unidirectional stream at a time (single caller, exact bound) with 1 %",
 		"wss is not driven (frps does not terminate wss itself); xtcp is driven through its fallback to an stcp visitor (STUN unreachable)",
 		"tcpMux has the same value on both ends (a mismatch is not a supported configuration)",
 	}
@@ -179,8 +179,8 @@ func limiterLastReadCase() *caseCfg {
 	}
 	return &caseCfg{Server: 0, A: cliOpts{Proto: "quic", TLS: 0, Pool: 1}, B: cliOpts{Proto: "tcp"},
 		Proxies: []proxyCfg{
-			{Kind: "tcp", Limit: "client", LKB: 4, Conns: conns("upclose", 3000, 0, 31)},
-			{Kind: "tcp", Limit: "server", LKB: 4, Conns: conns("downclose", 0, 3000, 51)},
+			{Kind: "tcp", Limit: "client", LKB: 4, Serial: true, StrictRate: true, Conns: conns("upclose", 3000, 0, 31)},
+			{Kind: "tcp", Limit: "server", LKB: 4, Serial: true, StrictRate: true, Conns: conns("downclose", 0, 3000, 51)},
 		}}
 }
 
@@ -589,14 +589,21 @@ func runCase(c *h.Case, cc *caseCfg, sv *srvInfo) {
 	}
 }
 
-// rateSlack: golang.org/x/time/rate (v0.5.0, the limiter frp uses) itself hands out slightly more than
-// burst + rate*t when several goroutines call WaitN at once: a caller whose timestamp is older than the
-// limiter's `last` moves `last` backwards (Limiter.advance), so the interval in between is credited twice.
-// Measured on the bare library with 8 concurrent callers: up to 0.6 % of the burst. That is the dependency's
-// arithmetic, not frp's wiring of the limiter, so the bound is judged with a relative tolerance; every break
-// the check is sized against (burst x2, wrong side, per-connection limiter, unaccounted reads, compressed-byte
-// accounting) exceeds it by 25 % or more.
-const rateSlack = 0.10
+// Tolerance of the rate bound. golang.org/x/time/rate (v0.5.0, the limiter frp uses) itself hands out more than
+// burst + rate*t when several goroutines call WaitN at once: a caller whose timestamp is older than the limiter's
+// `last` moves `last` backwards (Limiter.advance), so the time in between is credited twice. The excess is
+// rate x (how long that caller was delayed between taking its timestamp and getting the limiter's lock), i.e. it
+// grows with scheduling delays: 0.6 % of the burst on the bare library with 8 callers, up to 8 % through frp on
+// this machine at load 70. That is the dependency's arithmetic under load, not frp's wiring of the limiter, so:
+//   - proxies driven by one unidirectional stream at a time (StrictRate: the limiter has a single caller, the
+//     bound is exact) are judged with 1 % (rounding) — this is what catches small leaks such as unaccounted reads;
+//   - proxies with concurrent connections / both directions are judged with 25 %; every break of the wiring the
+//     check is sized against there (burst x2, limiter on the wrong side, limiter per connection, half the tokens,
+//     compressed bytes accounted instead of payload) exceeds the bound by 65 % or more.
+const (
+	rateSlackStrict     = 0.01
+	rateSlackConcurrent = 0.25
+)
 
 var (
 	worstRatioMu sync.Mutex
@@ -613,6 +620,10 @@ func checkRate(cs *caseState, px *proxyRT) {
 	px.mu.Unlock()
 	sort.Slice(evs, func(i, j int) bool { return evs[i].t < evs[j].t })
 	L := float64(px.cfg.LKB) * 1024
+	rateSlack := rateSlackConcurrent
+	if px.cfg.StrictRate {
+		rateSlack = rateSlackStrict
+	}
 	var cum int64
 	worst := 0.0
 	overStrict := false
@@ -625,20 +636,23 @@ func checkRate(cs *caseState, px *proxyRT) {
 		if r := float64(cum) / bound; r > worst {
 			worst, worstCum, worstDt = r, cum, dt
 		}
-		if float64(cum) > bound && float64(cum) <= bound*(1+rateSlack)+512 {
+		if float64(cum) > bound && float64(cum) <= bound*(1+rateSlack)+64 {
 			overStrict = true
 		}
-		if float64(cum) > bound*(1+rateSlack)+512 {
+		if float64(cum) > bound*(1+rateSlack)+64 {
 			key := "bandwidth-limit-exceeded-" + px.cfg.Limit + "-mode"
 			if px.cfg.Limit == "client" && px.cfg.Comp {
 				key += "-compressed"
 			}
-			cs.fail(nil, key, "proxy %s (limit %d KB/s enforced by the %s, enc=%v comp=%v): %d bytes delivered (both directions, all connections) within %.3f s of an idle start; limit x interval + one burst = %.0f bytes (tolerance for the rate library's own over-issue: %.0f%%)",
-				px.name, px.cfg.LKB, px.cfg.Limit, px.cfg.Enc, px.cfg.Comp, cum, dt, bound, rateSlack*100)
+			cs.fail(nil, key, "proxy %s (limit %d KB/s enforced by the %s, enc=%v comp=%v): %d bytes delivered (both directions, all connections) within %.3f s of an idle start; limit x interval + one burst = %.0f bytes (tolerance: %.0f%%, single-caller regime: %v)",
+				px.name, px.cfg.LKB, px.cfg.Limit, px.cfg.Enc, px.cfg.Comp, cum, dt, bound, rateSlack*100, px.cfg.StrictRate)
 			return
 		}
 	}
 	run.Count("rate_bound_checks", 1)
+	if px.cfg.StrictRate {
+		run.Count("rate_bound_checks_single_caller", 1)
+	}
 	if overStrict {
 		run.Count("rate_bound_over_strict_within_tolerance", 1)
 	}
